@@ -616,6 +616,14 @@ func (x *Exec) callEffects(fr *Frame, c *ssa.CallCommon, depth int) callEff {
 		}
 	}
 	if fn == nil {
+		// a callback the contract declares effect-free (`calls NAME pure`)
+		if top := x.top; top != nil && top.contract != nil {
+			if n := lastCallName(c); n != "" && top.contract.Calls[n] == "pure" {
+				if _, isGlobal := c.Value.(*ssa.Global); !isGlobal {
+					return e
+				}
+			}
+		}
 		// local closure variable: look for the closure stored in the cell
 		e.all = true
 		return e
@@ -852,6 +860,7 @@ func (fr *Frame) loopEnv(st *State, li *loopInfo) *SpecEnv {
 				if v, ok := st.cells[c]; ok {
 					if it, ok := v.X.(*mapIter); ok {
 						env.visited = it.visited
+						env.visitedM = it.m
 					}
 				}
 			}
@@ -1023,10 +1032,7 @@ func (fr *Frame) lookupLocal(st *State, name string, pos token.Pos) (*Val, bool)
 
 // specEnv: environment for ensures / crash clauses of this frame's function.
 func (fr *Frame) specEnv(st *State) *SpecEnv {
-	env := &SpecEnv{x: fr.x, st: st, old: fr.entry, pkg: fr.fn.Pkg.Pkg, vars: map[string]*Val{}, frame: fr}
-	if fr.fn.Pkg == nil {
-		env.pkg = nil
-	}
+	env := &SpecEnv{x: fr.x, st: st, old: fr.entry, pkg: fnTypesPkg(fr.fn), vars: map[string]*Val{}, frame: fr}
 	for i, p := range fr.fn.Params {
 		if i < len(fr.args) {
 			env.vars[p.Name()] = fr.args[i]
@@ -1156,4 +1162,25 @@ func (fr *Frame) literalEnsures(st *State, vals []*Val, pos token.Pos) {
 		x.oblige(st, "literal", "$"+lc.Lit+" returns: "+lc.Clause.Text, pos, g, lc.Clause.Tags, false)
 		lc.Clause.Label = "bound"
 	}
+}
+
+// fnSSAPkg: the package a function belongs to; an instance of a generic
+// function (and the literals inside it) has none of its own - its origin's.
+func fnSSAPkg(fn *ssa.Function) *ssa.Package {
+	for f := fn; f != nil; f = f.Parent() {
+		if f.Pkg != nil {
+			return f.Pkg
+		}
+		if o := f.Origin(); o != nil && o.Pkg != nil {
+			return o.Pkg
+		}
+	}
+	return nil
+}
+
+func fnTypesPkg(fn *ssa.Function) *types.Package {
+	if p := fnSSAPkg(fn); p != nil {
+		return p.Pkg
+	}
+	return nil
 }
